@@ -35,6 +35,18 @@ def testRegistry : Registry := fun name =>
   else if name = "nil".toList then some (fun _ => .ok ⟨none, some "argcount"⟩)
   else pureRegistry probeNames probeSem name
 
+mutual
+/-- Every function called in the tree is registered as the pure function `fn` says. -/
+def RegOk (reg : Registry) (fn : List Char → List Bytes → Bytes) : C09.Expr → Prop
+  | .call f args => reg f = some (pureBuilder (fn f)) ∧ RegOkArgs reg fn args
+  | .lit _ => True
+  | .group _ => True
+  | .key _ => True
+def RegOkArgs (reg : Registry) (fn : List Char → List Bytes → Bytes) : List C09.Expr → Prop
+  | [] => True
+  | a :: rest => RegOk reg fn a ∧ RegOkArgs reg fn rest
+end
+
 def envOf (ctx : Ctx) (fn : List Char → List Bytes → Bytes) : Env :=
   { getMatch := fun n => ctx.getMatch n, getKey := ctx.getKey, fn := fn }
 
